@@ -89,6 +89,7 @@ func stubDerivedKeySerialization() {
 }
 
 func VerifH_deriver_keyset() {
+	verifrt.NativeSkip("key (de)serialization is summarised")
 	max := 2
 	if verifrt.Thorough() {
 		max = 3
